@@ -34,6 +34,10 @@ type Options struct {
 	OpName       bool
 	// IDs usable for node(id:) roots
 	IDs []string
+	// MetaRoot: select the introspection root fields (__schema, __type) instead of ordinary ones
+	MetaRoot bool
+	// StringPool overrides the pool of String literals / values (e.g. type names for __type(name:))
+	StringPool []string
 	// Avoid: feature classes (names of package feat) the generator must not produce (closed gates)
 	Avoid map[string]bool
 }
@@ -103,8 +107,16 @@ func isLeaf(s *ast.Schema, t *ast.Type) bool {
 
 func (g *gen) fieldsOf(def *ast.Definition) []*ast.FieldDefinition {
 	var r []*ast.FieldDefinition
+	isRoot := def == g.s.Query || def == g.s.Mutation || def == g.s.Subscription
 	for _, f := range def.Fields {
-		if strings.HasPrefix(f.Name, "__") {
+		meta := strings.HasPrefix(f.Name, "__")
+		if g.o.MetaRoot && isRoot {
+			if meta && f.Name != "__typename" {
+				r = append(r, f)
+			}
+			continue
+		}
+		if meta {
 			continue
 		}
 		r = append(r, f)
@@ -425,7 +437,7 @@ func (g *gen) dirsSp() string {
 }
 
 func (g *gen) dirs() string {
-	if !g.o.Directives || !g.chance(4, "dir") {
+	if !g.o.Directives || g.o.Avoid["op.directives"] || !g.chance(4, "dir") {
 		return ""
 	}
 	g.label("directives")
@@ -501,7 +513,7 @@ func (g *gen) field0(parent *ast.Definition, f *ast.FieldDefinition, depth int, 
 			if _, u2 := sc.keys[key]; u2 {
 				return ""
 			}
-		} else if g.o.Avoid["op.duplicateKeyDifferentConditions"] {
+		} else if g.o.Avoid["op.duplicateKeyDifferentConditions"] || g.o.Avoid["op.duplicateResponseKey"] {
 			return ""
 		} else if leaf {
 			if !g.o.DupKeys {
@@ -693,6 +705,9 @@ func (g *gen) literalNoVar(t *ast.Type, depth int, constOnly bool) string {
 
 func (g *gen) str() string {
 	pool := []string{"a", "b c", "q\"uote", "üni", "", "x\\y", "long-value-123"}
+	if len(g.o.StringPool) > 0 {
+		pool = g.o.StringPool
+	}
 	return pool[g.pick(len(pool), "str")]
 }
 
